@@ -1,4 +1,6 @@
 import Bclv.Proofs.Verifier
+import Bclv.Proofs.CompileWf3
+import Bclv.Proofs.ParserFuel5
 /-!
 # C10 — compiled bytecode is well-formed along every path
 
@@ -11,13 +13,49 @@ code, constants or stack, fail a type assertion, or end in the "non-empty stack"
 internal error — for every path, including the operand a given run skips, because
 the check is over the map, not over one execution.
 
-The link to the *compiler* is by translation validation: the harness runs this
-verified verifier on the real dump of every program the implementation compiles
-(stream `wf`); `compile_wf` for the model's own compiler is future work and is not
-claimed.
+`compile_wf` proves the property for the model's compiler: **for every source text the
+parser model accepts, the compiled program passes the checker** — with an explicit depth
+map (`mapP`: one entry per instruction boundary, written down by recursion over the tree)
+whose every entry is shown to decode, to have its operands in range and of the right kind,
+and to flow into entries carrying the resulting depths; this covers the operand a run
+would skip (`and`/`or` jump over it, its boundaries are in the map all the same).  It
+rests on `parse_scoped` (the parser builds well-scoped trees) and `front_end_budgets`.
+
+The link to the *Go* compiler is by translation validation: the harness runs the verified
+checker on the real dump of every program the implementation compiles (stream `wf`), and
+the model's instruction bytes are compared with the implementation's on every generated
+program.
 -/
 namespace Bclv.C10
 open Bclv
+
+/-- **Compiled bytecode is well-formed along every path**: whatever source text the parser
+model accepts, there is a depth map for the compiled program that passes the local check
+at every instruction boundary (reachable in a given run or not). -/
+theorem compile_wf (name input : Bytes)
+    (hok : (parseTokens (lexWhole input) (newlinesFrom 0 input)).ok = true)
+    (hK : (parseTokens (lexWhole input) (newlinesFrom 0 input)).consts.length < 2 ^ 64) :
+    ∃ m, checkMap (parseWhole name input).prog m = true := by
+  obtain ⟨hcode, hpos, hconsts⟩ := C01.parsed_is_compiled name input hok
+  have hscp := parse_scoped _ _ hok (front_end_budgets input).2
+  exact ⟨mapP _, compileP_wf _ _ (by rw [hconsts]; exact hK) hcode hpos (by rw [hconsts]; exact hscp)⟩
+
+/-- …and therefore never makes the machine panic, at any step budget (the static route to
+what `accepted_source_runs` shows through the evaluator). -/
+theorem accepted_never_panics (name input : Bytes)
+    (hok : (parseTokens (lexWhole input) (newlinesFrom 0 input)).ok = true)
+    (hK : (parseTokens (lexWhole input) (newlinesFrom 0 input)).consts.length < 2 ^ 64) (n : Nat) :
+    match execute (parseWhole name input).prog false n with
+    | .panic _ => False
+    | .done _ hlt => ∀ t, hlt ≠ .internal t
+    | .timeout _ => True := by
+  obtain ⟨m, hc⟩ := compile_wf name input hok hK
+  have := run_safe hc n {} (checkMap_init hc)
+  unfold execute
+  cases hr : vmRun (parseWhole name input).prog false n {} with
+  | panic vm => simp [hr] at this
+  | done vm hl => simpa [hr] using this
+  | timeout vm => trivial
 
 /-- Soundness of the verifier, for every execution length. -/
 theorem wf_sound (p : Prog) (v : VerifyOk) (h : verify p = some v) (n : Nat) :
